@@ -119,6 +119,49 @@ pub fn set_cpu_budget(secs: f64) {
     }
 }
 
+/// Blocked-forever detection: a case that has been running for `secs` seconds of wall-clock time
+/// during which the whole process consumed (almost) no CPU time is not slow, it is waiting for
+/// something that nothing in the process is going to deliver. The verdict rests on the absence
+/// of CPU consumption (a loaded machine slows a runnable thread down, it does not stop it for
+/// this long), the wall-clock window only says how long the absence was observed.
+pub fn set_idle_hang(secs: f64) {
+    use std::sync::atomic::Ordering;
+    std::thread::spawn(move || {
+        let mut window: std::collections::VecDeque<(std::time::Instant, u64, u64)> = Default::default();
+        loop {
+            std::thread::sleep(std::time::Duration::from_millis(250));
+            let start = CASE_START_CPU_MS.load(Ordering::SeqCst);
+            let idx = CURRENT_IDX.load(Ordering::SeqCst);
+            if start == u64::MAX {
+                window.clear();
+                continue;
+            }
+            let now = std::time::Instant::now();
+            let cpu = (cpu_time() * 1000.0) as u64;
+            if window.back().map_or(false, |w| w.2 != idx) {
+                window.clear();
+            }
+            window.push_back((now, cpu, idx));
+            while window.len() > 2 && now.duration_since(window[1].0).as_secs_f64() >= secs {
+                window.pop_front();
+            }
+            let first = window[0];
+            if now.duration_since(first.0).as_secs_f64() >= secs && cpu.saturating_sub(first.1) < 40 {
+                let mut r = CaseResult::violation(
+                    idx,
+                    format!("the case has been blocked for {} s while the process used {} ms of CPU: it waits for something that is never delivered", secs, cpu - first.1),
+                    merge_key(json!({"kind": "blocked-forever"}), &Value::Null),
+                );
+                r.stat("blocked_forever", 1);
+                let mut j = r.to_json();
+                j["exit"] = json!(true);
+                emit("E", idx, &j);
+                unsafe { libc::_exit(0) };
+            }
+        }
+    });
+}
+
 pub fn case_started(idx: u64) {
     use std::sync::atomic::Ordering;
     CURRENT_IDX.store(idx, Ordering::SeqCst);
